@@ -31,7 +31,9 @@ COMPOUNDS = {
     'id': ['#i', '#main', '#n-1', '#abcd', '#abc', '#fed', '#AbC', '#abcdef', '#012', '#00ff00'],
     'elclass': ['div.a', 'p.q.r', 'li.x1'],
     'pseudo': ['a:hover', '.a:first-child', 'li:last-child', '.b::before', 'p::first-line', 'a:link'],
-    'attr': ['a[href]', '.a[x="1"]', 'input[type=text]', 'a[href^="http"]', '[data-x]'],
+    'attr': ['a[href]', '.a[x="1"]', 'input[type=text]', 'a[href^="http"]', '[data-x]',
+             # '?' inside the string: Identifier encodes combinators as '?>?' internally (seeded C01-4; repaired defect C01-qmark-pair)
+             'a[href*="?page="]', 'a[href="x?y?z"]', '[t="?>?"]', 'a[h="?a?"]', 'a[href$="?"]', 'a[href="/s?q=a+b&r=~c"]'],
     'func-pseudo': ['li:nth-child(2n+1)', '.a:not(.b)', 'p:lang(en)'],
     'universal': ['*'],
 }
@@ -43,8 +45,29 @@ VALUES = {
     'color': ['#aabbcc', '#ABC', '#AbCdEf', '#000', '#123456'],
     'url': ['url("i.png")', "url('j k.gif')", 'url("http://h/p?q=1")'],
     # (functions other than quoted url() are not part of the plain fragment the property lists; they are C17's subject)
+    # value words that the lexer's own tables classify as element names or property names (filled in by table_words():
+    # the token class of an identifier depends on lesscpy/lib/dom.py, lesscpy/lib/css.py and the in_property_decl flag: seeded C01-3)
+    'elword': ['center', 'small', 'table'],
+    'propword': ['width', 'opacity', 'color'],
 }
-PROPS = ['color', 'background', 'margin', 'border', 'font-family', 'content', 'transition', 'top', 'width', '-webkit-box-shadow', '-moz-x', 'z-index', 'my-own-prop']
+
+
+def table_words(rng):
+    """draw the 'elword' / 'propword' pools from the tables of the source tree under test"""
+    import sys
+    sys.path.insert(0, C.REPO)
+    try:
+        from lesscpy.lib import dom, css
+        els = sorted(set(e for e in dom.elements if re.match(r'^[a-z][a-z0-9]*$', e)))
+        prs = sorted(set(p for p in css.properties if re.match(r'^[a-z][a-z-]*$', p)))
+        VALUES['elword'] = ['center', 'small', 'table'] + rng.sample(els, min(12, len(els)))
+        VALUES['propword'] = ['width', 'opacity', 'color'] + rng.sample(prs, min(12, len(prs)))
+    except Exception:  # noqa  (tables moved: the fixed words remain)
+        pass
+    finally:
+        sys.path.pop(0)
+PROPS = ['color', 'background', 'margin', 'border', 'font-family', 'content', 'transition', 'top', 'width', '-webkit-box-shadow', '-moz-x', 'z-index', 'my-own-prop',
+         'place-items', 'background-position', 'will-change', 'grid-area']
 MEDIA = ['print', 'screen', 'screen and (min-width:100px)', '(max-width:50em)', 'only screen and (orientation:landscape)', 'not print',
          '(min-width:10px) and (max-width:20px)', 'print, screen', 'tv and (color)']
 
@@ -192,7 +215,11 @@ def run(tier):
                        'kinds x {space, comma, comma+space}, 4 !important spellings, 9 media query shapes; random sheets of 1-7 rules / '
                        '@media blocks; every sheet under a random option vector out of 7. distinct by (source, options); non-trivial = '
                        'a selector with a combinator or descendant space, or a value list')
+    table_words(rng)
     srcs = catalogue(rng)
+    # every table word twice in a row, after a comma, under a property the table knows and under one it does not
+    for w in VALUES['elword'] + VALUES['propword']:
+        srcs.append('.a{background-position:0 0, %s %s;place-items:%s %s;transition:%s 1s ease, %s 2s;top:%s}\n' % (w, w, w, w, w, w, w))
     nrand = 500 if tier == 'quick' else 12000
     srcs += [rand_sheet(rng) for _ in range(nrand)]
     opts = [rng.choice(OPTS) for _ in srcs]
